@@ -16,6 +16,17 @@ fn slot_name(r: &mut Rng) -> String {
     }
 }
 
+/// payload token for the k-th payload field of an operator
+fn payload_for_field(op: &str, k: usize, r: &mut Rng) -> String {
+    match (op, k) {
+        ("proj", 0) => ["foo", "bar.x", "q", "n1x"][r.below(4)].to_string(),
+        ("proj", _) | ("pidx", _) => format!("{}", [0u64, 4, 17, 4294967295][r.below(4)]),
+        ("flag2", 0) => ["true", "false"][r.below(2)].to_string(),
+        ("flag2", _) => format!("{}", r.below(9)),
+        _ => payload_for(op, r),
+    }
+}
+
 fn payload_for(op: &str, r: &mut Rng) -> String {
     match op {
         "cst" | "#num" => format!("{}", [0u64, 1, 7, 42, 4294967295][r.below(5)]),
@@ -42,6 +53,7 @@ fn gen_text(lang: &'static LangSig, r: &mut Rng, depth: usize, pattern: bool, va
     if !o.name.starts_with('#') {
         parts.push(o.name.to_string());
     }
+    let mut pk = 0;
     for f in o.fields {
         match f {
             Fld::S => parts.push(format!("${}", slot_name(r))),
@@ -57,7 +69,10 @@ fn gen_text(lang: &'static LangSig, r: &mut Rng, depth: usize, pattern: bool, va
                 }
                 parts.push(gen_text(lang, r, depth.saturating_sub(1), pattern, vars));
             }
-            Fld::P => parts.push(payload_for(o.name, r)),
+            Fld::P => {
+                parts.push(payload_for_field(o.name, pk, r));
+                pk += 1;
+            }
         }
     }
     let base = if parts.len() == 1 { parts.pop().unwrap() } else { format!("({})", parts.join(" ")) };
@@ -246,9 +261,10 @@ fn lang_case<L: Language + 'static>(lang: &'static LangSig, r: &mut Rng, out: &m
                     }
                     Fld::P => {
                         // inside a multi-pattern "==" and "," are separators: such payloads do not print unambiguously there
-                        let mut p = payload_for(o.name, r);
+                        let k = parts.iter().filter(|x| !x.starts_with('$') && !x.starts_with('?')).count().saturating_sub(1);
+                        let mut p = payload_for_field(o.name, k, r);
                         while p.contains("==") || p.contains(',') {
-                            p = payload_for(o.name, r);
+                            p = payload_for_field(o.name, k, r);
                         }
                         parts.push(p)
                     }
